@@ -14,8 +14,8 @@ SPECDIR = os.path.join(vf.SPEC, "air")
 
 META = dict(
     technique="TLA+ denotational model of assertions (Fits/Steps/Overlap as sets) enumerated exhaustively by TLC; every assertion and every ordered pair of the universe replayed on the real Assertion API; prepare_assertions accept/reject replayed through BoundaryConstraints::new",
-    text="TLC enumerates all single/periodic/sequence assertions with column in {0,1} and every step, power-of-two stride, first step and power-of-two value count up to 32 (64 in thorough), proves at that scope that the set-based overlap answer does not depend on the trace length and equals the transcribed case analysis, and the real validate_trace_length / get_num_steps / apply (26 trace lengths incl. 0, non-powers, 1..256) and overlaps_with (all ordered pairs) must return exactly what the specification computed; 36 674 assertion lists of length <= 3 are handed to BoundaryConstraints::new with the specification's accept/reject verdict.",
-    note="Bounded: parameters <= 32/64, two columns; overlap is only gated for pairs that fit a common trace length (others are called but not judged). Constructor rejection classes exclude first_step == stride (doc comment and code disagree, property silent).",
+    text="TLC enumerates all single/periodic/sequence assertions with column in {0,1} and every step, power-of-two stride, first step and power-of-two value count up to 32 (128 in thorough), proves at that scope (64 in thorough) that the set-based overlap answer does not depend on the trace length and equals the transcribed case analysis, and the real validate_trace_length / get_num_steps / apply (26 trace lengths incl. 0, non-powers, 1..256) and overlaps_with (all ordered pairs) must return exactly what the specification computed; 36 674 assertion lists of length <= 3 are handed to BoundaryConstraints::new with the specification's accept/reject verdict.",
+    note="Bounded: parameters <= 32 (quick) / 128 (thorough), two columns; overlap is only gated for pairs that fit a common trace length (others are called but not judged). Constructor rejection classes exclude first_step == stride (doc comment and code disagree, property silent).",
     design="7/C21")
 
 
@@ -127,8 +127,8 @@ def run(ck, tier):
                 or "Reflexive" in (r.error or "") or not ck.violations:
             raise vf.ToolError("design-level check of Assertions.tla failed (specification bug): %s" % r.error)
         ck.part("design", code_shaped_model_refuted=True)
-    lmax = 64 if thorough else 32
-    ck.bounds = {"LMax": lmax, "columns": [0, 1], "universe": n, "ordered_pairs": n * n,
+    lmax = 128 if thorough else 32
+    ck.bounds = {"LMax": lmax, "LMax_design_invariants": 64 if thorough else 32, "columns": [0, 1], "universe": n, "ordered_pairs": n * n,
                  "trace_lengths": [t["L"] for t in rows[0]["tbl"]],
                  "assertion_lists": "length 1,2 over 68 assertions (2 columns + invalid ones), length 3 over column 0; L=8, width=2"}
     ck.exhaustive = True
